@@ -208,7 +208,7 @@ class DataHeader(BitsInterface, BytesInterface):
             )
         elif self.data_packet_format == DataPacketFormats.ResponsePacket:
             return (
-                bitarray([0] * 4)
+                bitarray([0, self.is_response_requested, 0, 0])
                 + self.data_packet_format.as_bits()
                 + self.sap_identifier.as_bits()
                 + bitarray([0] * 4)
